@@ -136,14 +136,27 @@ func refBody(p pack.Pack, textRecs []ref.TextRec) []byte {
 			e := en.NextElement().(*hmap.StringKeyLinkedEntry)
 			attrs = append(attrs, ref.KV{K: e.GetKey(), V: e.GetValue().(string)})
 		}
+		// the reserved attributes are put into the attribute table: a key that is already there (the object was
+		// encoded or decoded before) keeps its place and gets the current value, a new one is appended
+		put := func(k, v string) {
+			for i := range attrs {
+				if attrs[i].K == k {
+					attrs[i].V = v
+					return
+				}
+			}
+			attrs = append(attrs, ref.KV{K: k, V: v})
+		}
 		if x.Uuid != "" {
-			attrs = append(attrs, ref.KV{K: "_uuid_", V: x.Uuid})
+			put("_uuid_", x.Uuid)
 		}
 		esc := "false"
 		if x.Escalation {
 			esc = "true"
 		}
-		attrs = append(attrs, ref.KV{K: "_esca_", V: esc}, ref.KV{K: "_status_", V: fmt.Sprint(x.Status)}, ref.KV{K: "_otype_", V: fmt.Sprint(x.Otype)})
+		put("_esca_", esc)
+		put("_status_", fmt.Sprint(x.Status))
+		put("_otype_", fmt.Sprint(x.Otype))
 		return ref.EventBody(h, x.Level, x.Title, x.Message, attrs)
 	case *pack.ZipPack:
 		return ref.ZipBody(h, x.Status, int64(x.RecordCount), x.Records)
@@ -206,6 +219,9 @@ func build(c gpack.Case) (pack.Pack, []ref.TextRec) {
 		var batch []pack.TextRec
 		for i := 0; i < n; i++ {
 			r := ref.TextRec{Div: byte(s.Int64()), Hash: int32(s.Int64()), Text: s.String()}
+			if s.Intn(4) == 0 {
+				r.Div, r.Hash = 1, 777 // the same (div, hash) may come with another text
+			}
 			recs = append(recs, r)
 			if i%2 == 0 {
 				p.AddText(pack.TextRec{Div: r.Div, Hash: r.Hash, Text: r.Text})
